@@ -164,13 +164,39 @@ def deviations(points, choices, upto=None):
     return sum(1 for i in range(n) if choices[i] != 0)
 
 
-def explore(run, preemption_bound=None, deviation_bound=None, max_runs=None):
+def alternatives(x, start, preemption_bound=None, deviation_bound=None):
+    """Prefixes that deviate from execution x at one point i >= start (within the bounds), deepest point first."""
+    out = []
+    for i in range(len(x.points) - 1, start - 1, -1):
+        order, still = x.points[i]
+        pre = preemptions(x.points, x.choices, i)
+        dev = deviations(x.points, x.choices, i)
+        for alt in range(len(order) - 1, 0, -1):
+            if preemption_bound is not None and pre + (1 if still else 0) > preemption_bound:
+                continue
+            if deviation_bound is not None and dev + 1 > deviation_bound:
+                continue
+            out.append(list(x.choices[:i]) + [alt])
+    return out
+
+
+def explore(run, preemption_bound=None, deviation_bound=None, max_runs=None, shard=None):
     """Depth-first enumeration of all schedules within the bounds.
 
     run(prefix) -> object with .points and .choices (complete lists of that execution).
     Yields every execution.  With both bounds None, all interleavings are enumerated.
+    shard=(k, S): the subtrees below the first-level deviations of the default execution are dealt round-robin
+    to S shards; shard k explores its share (shard 0 also yields the default execution itself), so the union
+    over k = 0..S-1 is exactly the unsharded enumeration.
     """
-    stack = [[]]
+    if shard is None:
+        stack = [[]]
+    else:
+        k, S = shard
+        x0 = run([])
+        if k == 0:
+            yield x0
+        stack = alternatives(x0, 0, preemption_bound, deviation_bound)[k::S]
     n = 0
     while stack:
         prefix = stack.pop()
